@@ -8,6 +8,8 @@
 #include <string.h>
 
 #include <algorithm>
+#include <deque>
+#include <memory>
 #include <set>
 
 #include "codec/wire.h"
@@ -15,6 +17,7 @@
 #include "harness/libchecks.h"
 #include "harness/libworld.h"
 #include "kernel/kernel.h"
+#include "sched/sched.h"
 
 extern "C" {
 #include <dbus/dbus.h>
@@ -30,21 +33,31 @@ namespace libchecks {
 
 namespace {
 
+static thread_local int tl_me = -1;   // index of the application thread running this code (thread mode), -1 otherwise
+
 struct Call {                       // model + observation of one call
   DBusPendingCall *pc = nullptr;
   uint32_t serial = 0;
   int64_t sent_us = 0;
   int64_t deadline_us = -1;         // -1: infinite
   bool cancelled = false;
+  bool cancel_started = false;      // a thread is inside dbus_pending_call_cancel() for it (or was)
   bool unreffed = false;
   int notified = 0;                 // times the notify callback ran
   bool has_notify = false;
   int64_t completed_seen_us = -1;   // virtual time at which the harness first saw it completed
   bool checked = false;             // its reply has been stolen and judged
-  // what the peer did about it
+  int owner_thread = -1;
+  int users = 0;                    // harness threads currently inside an operation on it (thread mode)
+};
+
+struct PeerRec {                    // what the peer did about one call serial (kept by serial: in thread mode the peer can
+                                    // answer a call before the sending thread has returned from the library)
   int replies_written = 0;
   int64_t first_reply_us = -1;
   uint64_t first_reply_end = 0;     // peer stream offset at which that reply ends
+  int64_t consumed_us = -1;         // when the harness first saw that the library had read that reply completely
+  uint64_t consumed_seq = 0;
   uint64_t first_reply_seq = 0;     // scenario event number of that write (orders it against peer:close)
   std::string first_reply_token;
   bool first_reply_is_error = false;
@@ -64,7 +77,10 @@ struct Scenario {
   uint64_t evseq = 0;               // global event sequence number of peer actions
   std::vector<wire::Msg> peer_calls;   // method calls seen by the peer, in order
   std::set<size_t> peer_answered;
-  std::vector<Call> calls;
+  std::map<uint32_t, PeerRec> prec;
+  PeerRec &P(const Call &k) { return prec[k.serial]; }
+  std::deque<Call> calls;           // stable addresses: threads hold pointers across scheduling points
+  int nthreads = 0;                 // > 0: thread mode (several application threads, blocking API, no main loop)
   std::map<std::string, uint64_t> counters;
   std::string hist;
   size_t step_idx = 0;
@@ -104,10 +120,20 @@ struct Scenario {
     }
   }
 
+  // note, as early as the harness can see it, that the library has read a call's reply completely
+  void stamp_consumed() {
+    if (!peer) return;
+    for (auto &kv : prec) {
+      PeerRec &k = kv.second;
+      if (k.first_reply_end > 0 && k.consumed_seq == 0 && peer->peer_consumed >= k.first_reply_end) { k.consumed_us = K->now_us; k.consumed_seq = ++evseq; }
+    }
+  }
+
   Call *call_by_serial(uint32_t s) { for (auto &k : calls) if (k.serial == s) return &k; return nullptr; }
 
   // n=[which, kind, split] kind: 0 return 1 error 2 duplicate of an answered one 3 unknown serial 4 reply to nothing (serial never used)
   void peer_reply(const Step &s) {
+    stamp_consumed();
     peer_pump();
     if (peer_closed || !peer_binary) return;
     std::vector<size_t> open, done;
@@ -131,10 +157,11 @@ struct Scenario {
       K->actor_write(peer, peer_held + bytes);
       peer_held.clear();
     }
-    if (Call *k = call_by_serial(rs)) {
+    if (kind != 3) {
       if (peer_held.empty() || split <= 0) {
-        k->replies_written++;
-        if (k->first_reply_us < 0) { k->first_reply_us = K->now_us; k->first_reply_seq = ++evseq; k->first_reply_end = peer->bytes_out; k->first_reply_token = tok; k->first_reply_is_error = kind == 1; }
+        PeerRec &k = prec[rs];
+        k.replies_written++;
+        if (k.first_reply_us < 0) { k.first_reply_us = K->now_us; k.first_reply_seq = ++evseq; k.first_reply_end = peer->bytes_out; k.first_reply_token = tok; k.first_reply_is_error = kind == 1; }
       } else {
         held_for = rs; held_token = tok; held_is_error = kind == 1;
       }
@@ -150,15 +177,17 @@ struct Scenario {
     if (peer_held.empty() || peer_closed) return;
     K->actor_write(peer, peer_held);
     peer_held.clear();
-    if (Call *k = call_by_serial(held_for)) {
-      k->replies_written++;
-      if (k->first_reply_us < 0) { k->first_reply_us = K->now_us; k->first_reply_seq = ++evseq; k->first_reply_end = peer->bytes_out; k->first_reply_token = held_token; k->first_reply_is_error = held_is_error; }
+    if (held_for) {
+      PeerRec &k = prec[held_for];
+      k.replies_written++;
+      if (k.first_reply_us < 0) { k.first_reply_us = K->now_us; k.first_reply_seq = ++evseq; k.first_reply_end = peer->bytes_out; k.first_reply_token = held_token; k.first_reply_is_error = held_is_error; }
     }
     held_for = 0;
   }
 
   void peer_close() {
     if (peer_closed || !peer) return;
+    stamp_consumed();
     peer_closed = true;
     peer_closed_us = K->now_us;
     peer_closed_seq = ++evseq;
@@ -194,6 +223,7 @@ struct Scenario {
     k.pc = pc;
     k.serial = serial;
     k.sent_us = K->now_us;
+    k.owner_thread = tl_me;
     long eff = timeout == -1 ? 25000 : timeout;
     k.deadline_us = timeout == 0x7fffffff ? -1 : K->now_us + (int64_t)eff * 1000;
     if (serial == 0) fail("oracle:C17:zero-serial", "a message was sent with serial 0");
@@ -204,9 +234,12 @@ struct Scenario {
   }
   bool wrapped = false;
 
+  struct Use { Call *k; explicit Use(Call *c) : k(c) { k->users++; } ~Use() { k->users--; } };
+
   void set_notify(size_t i) {
     Call &k = calls[i];
     if (k.has_notify || k.unreffed || k.cancelled) return;
+    Use u(&k);
     k.has_notify = true;
     bool was_completed = dbus_pending_call_get_completed(k.pc);
     if (!dbus_pending_call_set_notify(k.pc, notify_cb, this, nullptr)) core::harness_error("set_notify oom");
@@ -224,10 +257,11 @@ struct Scenario {
   void judge(Call &k) {
     // called once the call is seen completed; steals the reply and checks it
     if (k.checked || k.cancelled || k.unreffed) return;
-    if (!dbus_pending_call_get_completed(k.pc)) return;
+    k.checked = true;     // before the first library call: in thread mode another thread may run at any lock
+    if (!dbus_pending_call_get_completed(k.pc)) { k.checked = false; return; }
+    stamp_consumed();
     if (k.completed_seen_us < 0) k.completed_seen_us = K->now_us;
     DBusMessage *r = dbus_pending_call_steal_reply(k.pc);
-    k.checked = true;
     if (!r) fail("oracle:C17:no-reply-object", "call %u is completed but has no reply message", k.serial);
     uint32_t rs = dbus_message_get_reply_serial(r);
     int type = dbus_message_get_type(r);
@@ -246,8 +280,8 @@ struct Scenario {
     bool is_peer_reply = !local_error;
     if (is_peer_reply) {
       counters["completed_with_reply"]++;
-      if (k.first_reply_us < 0) fail("oracle:C17:wrong-reply", "call %u completed with a reply (%s) the peer never wrote for it", k.serial, tok.c_str());
-      if (tok != k.first_reply_token) fail("oracle:C17:wrong-reply", "call %u completed with reply '%s', the first reply written for it was '%s'", k.serial, tok.c_str(), k.first_reply_token.c_str());
+      if (P(k).first_reply_us < 0) fail("oracle:C17:wrong-reply", "call %u completed with a reply (%s) the peer never wrote for it", k.serial, tok.c_str());
+      if (tok != P(k).first_reply_token) fail("oracle:C17:wrong-reply", "call %u completed with reply '%s', the first reply written for it was '%s'", k.serial, tok.c_str(), P(k).first_reply_token.c_str());
     } else {
       counters["completed_with_local_error"]++;
       // a locally generated error is legitimate only once the deadline has passed or the connection is gone
@@ -255,15 +289,20 @@ struct Scenario {
       bool closed = peer_closed;
       if (!deadline_passed && !closed)
         fail("oracle:C17:early-timeout", "call %u completed with %s %lld ms before its timeout and with the connection open", k.serial, errname.c_str(), (long long)((k.deadline_us - K->now_us) / 1000));
+      // never when the library had already read the genuine reply while the call could still complete normally
+      if (P(k).consumed_seq && !wrapped && (!closed || P(k).consumed_seq < peer_closed_seq) && (k.deadline_us < 0 || P(k).consumed_us < k.deadline_us))
+        fail("oracle:C17:reply-lost", "call %u completed with %s although the library had read its reply %s", k.serial, errname.c_str(),
+             closed ? "before the peer closed" : "and the connection is open");
       // and not when the genuine reply had been fully written before any of that could happen AND was seen first... (either is accepted when both were possible)
-      if (k.first_reply_us >= 0 && !closed && k.deadline_us >= 0 && k.first_reply_us < k.deadline_us && k.completed_seen_us < k.deadline_us)
-        fail("oracle:C17:reply-lost", "call %u completed with %s although its reply was written %lld ms before the deadline", k.serial, errname.c_str(), (long long)((k.deadline_us - k.first_reply_us) / 1000));
+      if (P(k).first_reply_us >= 0 && !closed && k.deadline_us >= 0 && P(k).first_reply_us < k.deadline_us && k.completed_seen_us < k.deadline_us)
+        fail("oracle:C17:reply-lost", "call %u completed with %s although its reply was written %lld ms before the deadline", k.serial, errname.c_str(), (long long)((k.deadline_us - P(k).first_reply_us) / 1000));
     }
   }
 
   void observe_all() {
     for (auto &k : calls) {
       if (k.unreffed || k.cancelled) continue;
+      Use u(&k);
       if (dbus_pending_call_get_completed(k.pc) && k.completed_seen_us < 0) k.completed_seen_us = K->now_us;
     }
   }
@@ -287,6 +326,150 @@ struct Scenario {
     return false;
   }
 
+  // one application / peer action (both modes)
+  void exec_step(lw::LibWorld &world, const Step &s) {
+    if (s.t == "call") do_call(s);
+    else if (s.t == "notify") { if (!calls.empty()) set_notify((size_t)s.N(0, 0) % calls.size()); }
+    else if (s.t == "cancel") {
+      if (Call *k = pick_call(s.N(0, 0), true)) {
+        Use u(k);
+        if (!k->checked) {
+          // cancel, then look: a call that had completed (or was being completed by another thread) is over, not cancelled
+          k->cancel_started = true;
+          dbus_pending_call_cancel(k->pc);
+          if (dbus_pending_call_get_completed(k->pc)) counters["probe:cancel_after_completion"]++;
+          else { k->cancelled = true; counters["probe:cancelled"]++; note("cancel(" + std::to_string(k->serial) + ")"); }
+        }
+      }
+    } else if (s.t == "block") {
+      if (Call *k = pick_call(s.N(0, 0), true)) {
+        Use u(k);
+        if (!k->checked) {
+          note("block(" + std::to_string(k->serial) + ")");
+          counters["probe:blocked"]++;
+          if (nthreads > 0 && k->owner_thread != tl_me) counters["probe:blocked_on_another_threads_call"]++;
+          in_block = true;
+          if (tl_me >= 0) blocking_on[tl_me] = k;
+          dbus_pending_call_block(k->pc);
+          if (tl_me >= 0) blocking_on.erase(tl_me);
+          in_block = false;
+          if (!k->cancelled && !k->cancel_started && !dbus_pending_call_get_completed(k->pc)) fail("oracle:C17:block-returned-incomplete", "dbus_pending_call_block returned for call %u which is not completed", k->serial);
+          judge(*k);
+        }
+      }
+    } else if (s.t == "poll") {
+      if (Call *k = pick_call(s.N(0, 0), true)) { Use u(k); judge(*k); }
+    } else if (s.t == "unref") {
+      if (Call *k = pick_call(s.N(0, 0), false)) {
+        if (k->users == 0 && (!k->has_notify || k->notified || k->cancelled)) { k->unreffed = true; dbus_pending_call_unref(k->pc); }
+      }
+    } else if (s.t == "loop" && nthreads == 0) {
+      simk::IoProfile pr;
+      pr.short_read_pct = (unsigned)s.N(2); pr.one_byte_read_pct = (unsigned)s.N(3); pr.short_write_pct = (unsigned)s.N(4); pr.eintr_pct = (unsigned)s.N(5); pr.eagain_read_pct = (unsigned)s.N(6);
+      world.iterate((int)s.N(0, 1), (uint64_t)s.N(1, 1), pr);
+      peer_pump();
+      observe_all();
+    } else if (s.t == "dispatch") {
+      dbus_connection_dispatch(c);
+      observe_all();
+    } else if (s.t == "rwd" || s.t == "loop") {
+      if (nthreads > 0) {
+        // the dispatching thread of a loop-less application: read, write and dispatch, sleeping up to the given time
+        dbus_connection_read_write_dispatch(c, (int)s.N(0, 0) % 200);
+      } else {
+        // read_write_dispatch with timeout 0 == one non-blocking turn of the library's own loop
+        dbus_connection_read_write_dispatch(c, 0);
+        // read_write_dispatch() does not announce a dispatch-status change; an application that mixes it
+        // with a main loop has to look for itself
+        world.poke_dispatch(c);
+        peer_pump();
+      }
+      observe_all();
+    } else if (s.t == "preply") { peer_flush_held(); peer_reply(s); }
+    else if (s.t == "pclose") peer_close();
+    else if (s.t == "adv") { world.advance_ms(s.N(0, 0)); }
+    else core::harness_error("unknown step %s", s.t.c_str());
+  }
+
+  // ---- thread mode: 2-3 application threads use the blocking API on one connection (no main loop), the peer is
+  // one more scheduled actor; the serialising scheduler decides every interleaving from the plan's seed
+  void run_threads(lw::LibWorld &world) {
+    world.detach_from_loop(c);
+    simsched::Sched sched((uint64_t)plan.C("sched.seed", 1));
+    sched.spurious_wakeup_pct = (unsigned)plan.C("sched.spurious_pct", 0);
+    simk::IoProfile pr;
+    pr.short_read_pct = (unsigned)plan.C("io.short_read", 0); pr.one_byte_read_pct = (unsigned)plan.C("io.one_byte_read", 0);
+    pr.short_write_pct = (unsigned)plan.C("io.short_write", 0); pr.eintr_pct = (unsigned)plan.C("io.eintr", 0); pr.eagain_read_pct = (unsigned)plan.C("io.eagain_read", 0);
+    K->io = pr;
+    K->io_rng = simk::Rng((uint64_t)plan.C("sched.seed", 1) ^ 0x5151);
+    for (int i = 0; i < nthreads; i++)
+      sched.spawn([this, &world, &sched, i] {
+        tl_me = i;
+        for (auto &st : plan.steps) {
+          if (st.a != i) continue;
+          sched.yield();
+          tr.ev("t%d: step %s", i, st.t.c_str());
+          exec_step(world, st);
+        }
+        tr.ev("t%d: done", i);
+      });
+    // the peer (and the clock steps of the plan): touches only the simulated kernel
+    sched.spawn([this, &world, &sched] {
+      for (auto &st : plan.steps) {
+        if (st.a >= 0) continue;
+        sched.yield();
+        if (st.t == "preply" && st.N(1, 0) < 2) {
+          // an answer needs a call to answer: give the application threads a few turns to send one
+          for (int tries = 0; tries < 40; tries++) {
+            peer_pump();
+            bool open = false;
+            for (size_t i = 0; i < peer_calls.size(); i++) if (!peer_answered.count(i)) open = true;
+            if (open) break;
+            sched.yield();
+          }
+        }
+        tr.ev("world: step %s", st.t.c_str());
+        exec_step(world, st);
+      }
+    });
+    bool ok = sched.run(
+        [this, &sched](int64_t min_deadline) {
+          stamp_consumed();
+          // nobody can run.  A thread asleep in poll() inside dbus_pending_call_block() although the library has
+          // already read the reply to the call it waits for has missed it: only the thread that owns the I/O path
+          // reads, and it looks at what it read before it sleeps again
+          for (auto &kv : blocking_on) {
+            Call *k = kv.second;
+            simsched::Thread *t = sched.threads[(size_t)kv.first];
+            if (t->st == simsched::Thread::BLOCKED_POLL && !k->cancelled && !k->cancel_started && P(*k).consumed_seq != 0)
+              fail("oracle:C17:asleep-although-reply-read", "thread %d sleeps in poll (%s) inside dbus_pending_call_block() for call %u although the library has already read that call's reply",
+                   kv.first, t->deadline_us < 0 ? "no timeout" : "until its timeout", k->serial);
+          }
+          if (min_deadline >= 0) { if (K->now_us < min_deadline) K->now_us = min_deadline; tr.ev("world: clock to next deadline"); return true; }
+          // everybody sleeps without a deadline and the plan has nothing more for the peer to do: the peer goes away (a legal event)
+          if (!peer_closed) { counters["forced_peer_close"]++; tr.ev("world: forced close"); peer_close(); return true; }
+          return false;
+        },
+        [this] { stamp_consumed(); });
+    K->io = simk::IoProfile();
+    counters["sched:switches"] += sched.stats.switches;
+    counters["sched:preemptions"] += sched.stats.preemptions;
+    counters["sched:mutex_waits"] += sched.stats.mutex_waits;
+    counters["sched:cond_waits"] += sched.stats.cond_waits;
+    counters["sched:cond_timeouts"] += sched.stats.cond_timeouts;
+    counters["sched:poll_parks"] += sched.stats.poll_parks;
+    counters["sched:world_steps"] += sched.stats.world_steps;
+    counters["fault:spurious_cond_wakeup"] += sched.stats.spurious_wakeups;
+    if (sched.stats.mutex_waits) counters["probe:thread_waited_for_lock"]++;
+    if (sched.stats.cond_waits) counters["probe:thread_waited_on_condition"]++;
+    counters["probe:thread_mode_runs"]++;
+    for (auto *t : sched.threads) if (t->st != simsched::Thread::DONE) threads_stuck = true;
+    for (auto *t : sched.threads) if (t->failed) throw core::Violation{t->failure_cls, t->failure_detail};
+    if (!ok) fail("oracle:C17:deadlock", "application threads are blocked for ever although the peer has closed and no timeout is pending: %s", sched.deadlock_report.c_str());
+  }
+  std::map<int, Call *> blocking_on;   // thread -> the call it is inside dbus_pending_call_block() for
+  bool threads_stuck = false;
+
   core::RunResult run(bool log) {
     core::RunResult res;
     tr.reset(log);
@@ -295,8 +478,10 @@ struct Scenario {
       size_t i = 0;
       while (i <= s.size()) { size_t j = s.find(',', i); if (j == std::string::npos) j = s.size(); if (j > i) known.insert(s.substr(i, j - i)); i = j + 1; }
     }
+    std::unique_ptr<lw::LibWorld> wp;
     try {
-      lw::LibWorld world(tr, plan.seed);
+      wp.reset(new lw::LibWorld(tr, plan.seed));
+      lw::LibWorld &world = *wp;
       w = &world;
       K->on_block = [this](int64_t dl) { peer_pump(); return world_step(dl); };
       c = world.client_open("simpeer");
@@ -307,68 +492,43 @@ struct Scenario {
       // authenticate
       for (int i = 0; i < 12 && !dbus_connection_get_is_authenticated(c); i++) { world.iterate(1, 1, simk::IoProfile()); peer_pump(); }
       if (!dbus_connection_get_is_authenticated(c)) core::harness_error("client did not authenticate against the scripted peer");
-      for (step_idx = 0; step_idx < plan.steps.size(); step_idx++) {
-        const Step &s = plan.steps[step_idx];
-        tr.ev("step %s", s.t.c_str());
-        if (s.t == "call") do_call(s);
-        else if (s.t == "notify") { if (!calls.empty()) set_notify((size_t)s.N(0, 0) % calls.size()); }
-        else if (s.t == "cancel") {
-          if (Call *k = pick_call(s.N(0, 0), true)) {
-            if (!k->checked && dbus_pending_call_get_completed(k->pc)) { dbus_pending_call_cancel(k->pc); counters["probe:cancel_after_completion"]++; }   // a no-op: the call is over
-            else if (!k->checked) { dbus_pending_call_cancel(k->pc); k->cancelled = true; counters["probe:cancelled"]++; if (dbus_pending_call_get_completed(k->pc)) counters["probe:cancel_after_completion"]++; note("cancel(" + std::to_string(k->serial) + ")"); }
-          }
-        } else if (s.t == "block") {
-          if (Call *k = pick_call(s.N(0, 0), true)) {
-            if (!k->checked) {
-              note("block(" + std::to_string(k->serial) + ")");
-              counters["probe:blocked"]++;
-              in_block = true;
-              dbus_pending_call_block(k->pc);
-              in_block = false;
-              if (!dbus_pending_call_get_completed(k->pc)) fail("oracle:C17:block-returned-incomplete", "dbus_pending_call_block returned for call %u which is not completed", k->serial);
-              judge(*k);
-            }
-          }
-        } else if (s.t == "poll") {
-          if (Call *k = pick_call(s.N(0, 0), true)) judge(*k);
-        } else if (s.t == "unref") {
-          if (Call *k = pick_call(s.N(0, 0), false)) { if (!k->has_notify || k->notified || k->cancelled) { dbus_pending_call_unref(k->pc); k->unreffed = true; } }
-        } else if (s.t == "loop") {
-          simk::IoProfile pr;
-          pr.short_read_pct = (unsigned)s.N(2); pr.one_byte_read_pct = (unsigned)s.N(3); pr.short_write_pct = (unsigned)s.N(4); pr.eintr_pct = (unsigned)s.N(5); pr.eagain_read_pct = (unsigned)s.N(6);
-          world.iterate((int)s.N(0, 1), (uint64_t)s.N(1, 1), pr);
-          peer_pump();
-          observe_all();
-        } else if (s.t == "dispatch") {
-          dbus_connection_dispatch(c);
-          observe_all();
-        } else if (s.t == "rwd") {
-          // read_write_dispatch with timeout 0 == one non-blocking turn of the library's own loop
-          dbus_connection_read_write_dispatch(c, 0);
-          // read_write_dispatch() does not announce a dispatch-status change; an application that mixes it
-          // with a main loop has to look for itself
-          world.poke_dispatch(c);
-          peer_pump();
-          observe_all();
-        } else if (s.t == "preply") { peer_flush_held(); peer_reply(s); }
-        else if (s.t == "pclose") peer_close();
-        else if (s.t == "adv") { world.advance_ms(s.N(0, 0)); }
-        else core::harness_error("unknown step %s", s.t.c_str());
+      nthreads = (int)plan.C("threads", 0);
+      if (nthreads > 0) {
+        run_threads(world);
+      } else {
+        for (step_idx = 0; step_idx < plan.steps.size(); step_idx++) {
+          const Step &s = plan.steps[step_idx];
+          tr.ev("step %s", s.t.c_str());
+          exec_step(world, s);
+          stamp_consumed();
+        }
       }
       // bounded liveness: faults off, everything delivered, time moved past every finite deadline:
       // each call that was not cancelled must now be complete
       peer_flush_held();
-      world.settle();
-      peer_pump();
-      int64_t far = K->now_us;
-      for (auto &k : calls) if (k.deadline_us > far) far = k.deadline_us;
-      K->now_us = far + 1000;
-      world.settle();
+      if (nthreads > 0) {
+        // the threads are gone; the application (one thread now) waits for whatever is still outstanding
+        step_idx = plan.steps.size();
+        for (auto &k : calls) {
+          if (k.unreffed || k.cancelled || k.checked) continue;
+          dbus_pending_call_block(k.pc);
+        }
+        for (int i = 0; i < 20; i++) dbus_connection_read_write_dispatch(c, 0);
+        while (dbus_connection_dispatch(c) == DBUS_DISPATCH_DATA_REMAINS) {}
+        stamp_consumed();
+      } else {
+        world.settle();
+        peer_pump();
+        int64_t far = K->now_us;
+        for (auto &k : calls) if (k.deadline_us > far) far = k.deadline_us;
+        K->now_us = far + 1000;
+        world.settle();
+      }
       for (auto &k : calls) {
         if (k.unreffed || k.cancelled) continue;
-        bool must = k.deadline_us >= 0 || k.first_reply_us >= 0 || peer_closed;
+        bool must = k.deadline_us >= 0 || P(k).first_reply_us >= 0 || peer_closed;
         if (must && !dbus_pending_call_get_completed(k.pc) && peer_closed && known.count("C17-outstanding-calls-not-completed-on-disconnect") &&
-            !(k.first_reply_us >= 0 && peer->peer_consumed >= k.first_reply_end)) {
+            !(P(k).first_reply_us >= 0 && peer->peer_consumed >= P(k).first_reply_end)) {
           // listed known finding: calls outstanding when the connection goes away are dropped, not completed
           // (outstanding: the library had not read the call's reply by then - a reply still in the socket
           // when a failed write makes the library disconnect is legitimately lost)
@@ -377,7 +537,8 @@ struct Scenario {
         }
         if (must && !dbus_pending_call_get_completed(k.pc))
           fail("oracle:C17:never-completed", "call %u (timeout %s) is still pending after its deadline passed, faults stopped and the loop ran to idle", k.serial, k.deadline_us < 0 ? "infinite" : "finite");
-        if (k.has_notify && dbus_pending_call_get_completed(k.pc) && k.notified != 1)
+        // (thread mode: a notify function set while another thread completes the call may legitimately never run)
+        if (k.has_notify && dbus_pending_call_get_completed(k.pc) && k.notified != 1 && !(nthreads > 0 && k.notified == 0))
           fail("oracle:C17:not-notified-once", "call %u is completed and its notify function ran %d times", k.serial, k.notified);
         judge(k);
       }
@@ -389,10 +550,15 @@ struct Scenario {
       K->on_block = nullptr;
       world.stop();
       w = nullptr;
+      wp.reset();
     } catch (core::Violation &v) {
       res.ok = false;
       res.cls = v.cls;
       res.detail = v.detail;
+      // thread mode: threads that never finished stay parked inside the library (holding its locks in the
+      // scheduler's books); tearing the world down under them would only produce secondary failures
+      if (threads_stuck) (void)wp.release();
+      else wp.reset();
       // the world object is gone; pending calls die with dbus_shutdown in its destructor
     }
     res.hash = tr.h;
@@ -419,8 +585,24 @@ Plan gen_pending(uint64_t seed, bool th) {
   p.prop = "C17";
   p.seed = seed;
   if (r.pct(25)) p.cfg["serial.start"] = std::to_string(0xffffffffu - r.below(6));
-  auto add = [&](const std::string &t, std::vector<int64_t> n = {}) { Step s; s.t = t; s.n = std::move(n); p.steps.push_back(s); };
+  int nthreads = r.pct(35) ? (int)r.range(2, 3) : 0;
+  if (nthreads) {
+    p.cfg["threads"] = std::to_string(nthreads);
+    p.cfg["sched.seed"] = std::to_string(r.next() & 0x7fffffff);
+    if (r.pct(30)) p.cfg["sched.spurious_pct"] = std::to_string(r.range(1, 10));
+    if (r.pct(40)) p.cfg["io.short_read"] = std::to_string(r.below(40));
+    if (r.pct(20)) p.cfg["io.one_byte_read"] = std::to_string(r.below(20));
+    if (r.pct(25)) p.cfg["io.eintr"] = std::to_string(r.below(10));
+    if (r.pct(25)) p.cfg["io.short_write"] = std::to_string(r.below(30));
+  }
+  auto add = [&](const std::string &t, std::vector<int64_t> n = {}) {
+    Step s; s.t = t; s.n = std::move(n);
+    bool world = t == "preply" || t == "pclose" || t == "adv";
+    s.a = (nthreads && !world) ? (int)r.below((uint64_t)nthreads) : -1;
+    p.steps.push_back(s);
+  };
   auto loop = [&]() {
+    if (nthreads) { add("rwd", {r.pct(50) ? 0 : (int64_t)r.range(1, 120)}); return; }
     add("loop", {(int64_t)r.range(1, 3), (int64_t)(r.next() & 0x7fffffff), r.pct(40) ? (int64_t)r.below(40) : 0, r.pct(30) ? (int64_t)r.below(30) : 0,
                  r.pct(40) ? (int64_t)r.below(40) : 0, r.pct(25) ? (int64_t)r.below(10) : 0, r.pct(25) ? (int64_t)r.below(15) : 0});
   };
@@ -436,9 +618,9 @@ Plan gen_pending(uint64_t seed, bool th) {
     } else if (x < 44) add("preply", {(int64_t)r.below(8), r.pct(65) ? (int64_t)r.below(2) : (int64_t)r.range(2, 3), r.pct(25) ? (int64_t)r.range(1, 30) : 0});
     else if (x < 60) loop();
     else if (x < 66) add("dispatch");
-    else if (x < 71) add("rwd");
+    else if (x < 71) add("rwd", {nthreads && r.pct(50) ? (int64_t)r.range(1, 120) : 0});
     else if (x < 79) add("adv", {r.pct(60) ? (int64_t)r.range(1, 300) : (int64_t)r.range(300, 40000)});
-    else if (x < 84) add("cancel", {(int64_t)r.below(8)});
+    else if (x < 84) { if (nthreads && r.pct(60)) add("block", {(int64_t)r.below(8)}); else add("cancel", {(int64_t)r.below(8)}); }
     else if (x < 90) add("block", {(int64_t)r.below(8)});
     else if (x < 94) add("poll", {(int64_t)r.below(8)});
     else if (x < 96) add("notify", {(int64_t)r.below(8)});
